@@ -565,6 +565,17 @@ fn classify_ord(root: &Path, id: &str, a: &Abs) -> FileState {
     let got: Vec<u64> = raw[32..].chunks(24).map(|c| u64::from_le_bytes(c[0..8].try_into().unwrap())).collect();
     if got == want { FileState::Exact } else { FileState::WellFormedDiffers }
 }
+/// the ordinal index's last record is the thread's last message: the only cross-check the readers make
+/// (message_count_messages_runs_v1) passes although records are missing before it
+fn ord_tail_coherent(root: &Path, id: &str, a: &Abs) -> bool {
+    let p = target_path(root, id, Target::Ord);
+    let Ok(raw) = std::fs::read(&p) else { return false };
+    if raw.len() < 32 + 24 || (raw.len() - 32) % 24 != 0 {
+        return false;
+    }
+    let last = u64::from_le_bytes(raw[raw.len() - 24..raw.len() - 16].try_into().unwrap());
+    a.truth.iter().rev().find(|e| matches!(e.kind, EventKind::ContinuityMessageAppended { .. })).map(|e| e.seq) == Some(last)
+}
 
 struct Coherence {
     truth_valid: bool, // the thread's frames in events.jsonl carry seq 0,1,2,.. (a precondition of the property, owned by C01/C05)
@@ -575,11 +586,12 @@ struct Coherence {
     comp: FileState,
     compidx: FileState,
     ord: FileState,
+    ord_tail_coherent: bool,
 }
 fn coherence(root: &Path, id: &str, a: &Abs) -> Coherence {
     let (full, pre) = classify_full(root, id, a);
     let gap = abstract_full(root, id, a).map(|ls| !ls.is_empty() && ls.iter().all(|(g, _)| *g) && !ls.iter().enumerate().all(|(i, (_, s))| *s == i as u64)).unwrap_or(false);
-    Coherence { truth_valid: a.truth.iter().enumerate().all(|(i, e)| e.seq == i as u64), full, full_stale_prefix: pre, full_good_lines_not_contiguous: gap, mr: classify_derived_jsonl(root, id, a, Target::Mr), comp: classify_derived_jsonl(root, id, a, Target::Comp), compidx: classify_compidx(root, id, a), ord: classify_ord(root, id, a) }
+    Coherence { truth_valid: a.truth.iter().enumerate().all(|(i, e)| e.seq == i as u64), full, full_stale_prefix: pre, full_good_lines_not_contiguous: gap, mr: classify_derived_jsonl(root, id, a, Target::Mr), comp: classify_derived_jsonl(root, id, a, Target::Comp), compidx: classify_compidx(root, id, a), ord: classify_ord(root, id, a), ord_tail_coherent: ord_tail_coherent(root, id, a) }
 }
 /// executable class of a fast/truth disagreement
 fn classify_violation(c: &Coherence, fast: &Ans, truth: &Ans, q: &Q) -> String {
@@ -621,7 +633,9 @@ fn classify_violation(c: &Coherence, fast: &Ans, truth: &Ans, q: &Q) -> String {
     if c.mr == FileState::Empty || c.comp == FileState::Empty {
         return "derived_sidecar_zero_length_accepted".into();
     }
-    if c.compidx == FileState::WellFormedDiffers || c.ord == FileState::WellFormedDiffers {
+    // the ordinal index is cross-checked only through its last record; an index whose last record is NOT the last
+    // message is detected by the readers, so a disagreement in that state would be a new defect, not this class
+    if c.compidx == FileState::WellFormedDiffers || (c.ord == FileState::WellFormedDiffers && c.ord_tail_coherent) {
         return "derived_index_wellformed_not_projection".into();
     }
     if c.full_good_lines_not_contiguous && matches!(q, Q::Compile { .. }) {
